@@ -42,12 +42,10 @@ func (c *Config) CountField(name string, opts ...Option) (int, error) {
 	if v, ok := c.fields.get(name); ok {
 		n, err := v.Len(makeOptions(opts))
 		if err != nil {
-			// errors resolving dynamic values are reported like by the getters
-			if _, typed := err.(Error); !typed {
-				ctx := v.Context()
-				err = raisePathErr(err, v.meta(), "", ctx.path("."))
-			}
-			return n, err
+			// errors resolving dynamic values are reported like by the
+			// getters: for the setting that was read, with its source
+			ctx := v.Context()
+			return n, raisePathErr(err, v.meta(), "", ctx.path("."))
 		}
 		return n, nil
 	}
